@@ -84,6 +84,31 @@ func checkC11(r *core.Run) {
 		}
 		m[f][fn] = true
 	}
+	// store shapes per (field, function), for the cache criterion below
+	type shape struct{ fresh, other, elem bool }
+	shapes := map[*types.Var]map[*ssa.Function]*shape{}
+	shapeOf := func(f *types.Var, fn *ssa.Function) *shape {
+		if shapes[f] == nil {
+			shapes[f] = map[*ssa.Function]*shape{}
+		}
+		if shapes[f][fn] == nil {
+			shapes[f][fn] = &shape{}
+		}
+		return shapes[f][fn]
+	}
+	isFresh := func(v ssa.Value) bool {
+		switch x := v.(type) {
+		case *ssa.Const:
+			return x.Value == nil || x.IsNil() || x.Value.String() == "0" || x.Value.String() == "\"\"" || x.Value.String() == "false"
+		case *ssa.MakeMap:
+			return true
+		case *ssa.MakeSlice:
+			if c, ok := x.Len.(*ssa.Const); ok && c.Int64() == 0 {
+				return true
+			}
+		}
+		return false
+	}
 	var allFns []*ssa.Function
 	for _, sp := range sortedSSAPkgs(prog) {
 		for fn := range allFuncsOf(prog, sp) {
@@ -110,6 +135,25 @@ func checkC11(r *core.Run) {
 					}
 					if fa, ok := a.(*ssa.FieldAddr); ok {
 						note(storers, fieldOfAddr(fa), fn)
+						if f := fieldOfAddr(fa); f != nil {
+							sh := shapeOf(f, fn)
+							switch {
+							case a != x.Addr:
+								sh.elem = true
+							case isFresh(x.Val):
+								sh.fresh = true
+							default:
+								sh.other = true
+							}
+						}
+					}
+				case *ssa.MapUpdate:
+					if u, ok := x.Map.(*ssa.UnOp); ok && u.Op == token.MUL {
+						if fa, ok := u.X.(*ssa.FieldAddr); ok {
+							if f := fieldOfAddr(fa); f != nil {
+								shapeOf(f, fn).elem = true
+							}
+						}
 					}
 				case *ssa.UnOp:
 					if x.Op == token.MUL {
@@ -209,6 +253,24 @@ func checkC11(r *core.Run) {
 			for fn := range storers[f] {
 				if fn != dejsoner {
 					nonLoader++
+				}
+			}
+			// a cache: outside save/load the field is only ever reset (nil, zero, a fresh empty container),
+			// and its elements are filled only by functions that first reset it — it is recomputed from the
+			// rest of the machine and carries no information of its own
+			if len(outside) > 0 {
+				cache := true
+				for fn, sh := range shapes[f] {
+					if fn == dejsoner || fn == jsoner {
+						continue
+					}
+					if sh.other || (sh.elem && !sh.fresh) {
+						cache = false
+					}
+				}
+				if cache {
+					r.Note("C11/COVERAGE", inst, pos, "cache field: only ever reset or rebuilt from scratch from the rest of the machine; not part of the persistent state")
+					continue
 				}
 			}
 			if len(outside) == 0 && nonLoader > 0 {
